@@ -27,18 +27,57 @@ def main_closure(P):
 
 
 def _q_success_guard(cb, target_bb, call_bb):
-    """target_bb is reached only through the Continue edge of `?` applied to (a map_err of) the call at call_bb."""
+    """target_bb is reached only when the call at call_bb succeeded: through the Continue edge of `?` applied to (a map_err of) it, the
+    Ok/Some arm of a match or `if let` on it, the fall-through of `if let Err(..)/None = .. { return }`, or the true/false edge of
+    is_ok()/is_some() / is_err()/is_none() on it."""
+    def from_call(o):
+        o = mir.o_root(o) if o[0] in ("ref", "deref", "copy") else o
+        if o[0] == "call" and o[1].bb == call_bb:
+            return o[1]
+        if o[0] == "call" and o[1].callee.get("name") in ("map_err", "map", "into", "as_ref", "as_mut", "ok", "branch") and o[1].args:
+            return from_call(cb.origin(o[1].args[0]))
+        return None
+
+    def only_success(vals, term, fail):
+        vals = [str(v) for v in vals]
+        if str(fail) in vals:
+            return False
+        if "otherwise" in vals:
+            # the failure discriminant must be routed elsewhere explicitly
+            return any(str(v) == str(fail) for v, n in term["targets"])
+        return True
     for gbb, vals, n in cb.guards_of(target_bb):
+        term = cb.blocks[gbb]["term"]
         so = cb.switch_origin(gbb)
-        if so[0] != "discr":
+        if so[0] == "discr":
+            src = so[1]
+            if mir.o_is_call(src, name="branch"):
+                c = from_call(cb.origin(src[1].args[0]))
+                if c is not None and only_success(vals, term, 1):
+                    return True
+                continue
+            c = from_call(src)
+            if c is not None and c.dest is not None and "p" not in c.dest:
+                ty = cb.local_ty(c.dest["l"])
+                fail = 0 if re.match(r"(core::option::)?Option<", ty) else 1
+                if only_success(vals, term, fail):
+                    return True
             continue
-        src = so[1]
-        if mir.o_is_call(src, name="branch"):
-            inner = cb.origin(src[1].args[0], through_calls=("map_err", "map", "into"))
-            if inner[0] == "call" and inner[1].bb == call_bb and list(vals) == ["0"]:
+        o, pos = mir.norm_bool(so)
+        if o[0] == "call" and o[1].callee.get("name") in ("is_ok", "is_some", "is_err", "is_none") and o[1].args:
+            c = from_call(mir.o_root(cb.origin(o[1].args[0])))
+            if c is None:
+                continue
+            good = o[1].callee.get("name") in ("is_ok", "is_some")
+            taken = [str(v) for v in vals] != ["0"] and "0" not in [str(v) for v in vals]
+            if [str(v) for v in vals] == ["0"]:
+                edge = False
+            elif "0" in [str(v) for v in vals]:
+                continue
+            else:
+                edge = True
+            if (edge == pos) == good:
                 return True
-        if src[0] == "call" and src[1].bb == call_bb and list(vals) == ["0"]:
-            return True
     return False
 
 
